@@ -77,7 +77,10 @@ def parse(raw: bytes):
     if isinstance(pdu, EofPdu):
         cc = pdu.condition_code
         if not isinstance(cc, ConditionCode):
-            pdu.condition_code = ConditionCode(int(cc) >> 4)
+            try:
+                pdu.condition_code = ConditionCode(int(cc) >> 4)
+            except ValueError as e:  # a reserved condition code: not a PDU the dependency can represent
+                raise WireError(f"ValueError: {e}") from e
         pdu.file_checksum = bytes(pdu.file_checksum)
     return pdu
 
